@@ -84,15 +84,30 @@ func CoqCase(res *Result) string {
 			sq, ep int64
 		}
 		var stamps []st
+		var flushed []string
+		inFlush := map[int64]bool{}
 		for _, e := range res.Events {
+			switch e.Kind {
+			case "pp.flush.level":
+				inFlush[e.Goid] = true
+			case "pp.recv":
+				inFlush[e.Goid] = false
+			}
 			if e.Kind == "return.error" && e.Msg != nil && e.Msg.HasSeq {
 				bumps++
 			}
 			if e.Kind == "pp.send" && e.Msg != nil && e.Msg.Retries == 0 && e.Msg.Flags == 0 {
+				if inFlush[e.Goid] && !e.Msg.HasSeq {
+					// flushRetryBuffers of the pinned tree forwards the backlog as it is: the model (Actors.flush) does not
+					// stamp there (known finding c05:unsequenced-backlog; with fixes/c05_flush_stamp.patch the message is
+					// stamped at this point and is checked like any other stamp)
+					flushed = append(flushed, fmt.Sprintf("TFlushed %s %s", z(e.Msg.ID), coqfmt.Bool(e.Msg.HasSeq)))
+					continue
+				}
 				ep := int64(e.Msg.Epoch)
 				sq := int64(e.Msg.Seq)
 				if !e.Msg.HasSeq {
-					ep, sq = -7, -7 // an unstamped first-pass message in idempotent mode never matches the model
+					ep, sq = -7, -7 // an unstamped first-pass message on the main path never matches the model
 				}
 				stamps = append(stamps, st{e.Msg.Partition, sq, ep})
 				if int(ep) > maxEp {
@@ -117,6 +132,7 @@ func CoqCase(res *Result) string {
 				ops = append(ops, "TBump")
 			}
 		}
+		ops = append(ops, flushed...)
 		final = int64(res.FinalEpoch)
 	}
 	// (3) retryBatch goroutines
